@@ -55,6 +55,9 @@ var c16SplitProg = &Program{Rules: []*Rule{{Body: Blk(
 	Pr(CallE(Mem(V("r"), "length"))),
 	&ForIn{V: "p", Iter: V("r"), Body: Blk(Pr(Bin("+", Bin("+", S("["), V("p")), S("]"))))},
 	Pr(Mem(V("$"), "s")),
+	// the result is the caller's own array: changing it must not show in a later split of the same string
+	Ex(Asg("=", Idx(V("r"), N("0")), S("CHANGED"))), Ex(CallE(Mem(V("r"), "pop"))), Ex(CallE(Mem(V("r"), "push"), S("x"))),
+	Pr(CallE(Mem(Mem(V("$"), "s"), "split"), Mem(V("$"), "sep")), CallE(Mem(CallE(Mem(Mem(V("$"), "s"), "split"), Mem(V("$"), "sep")), "length"))),
 )}}}
 
 func c16Split(c *fw.Ctx, s string, seps []string) *fw.Violation {
